@@ -630,7 +630,7 @@ func checkResetReachesCarriers(c *report.Ctx) {
 		refacts := an.NewFacts(re)
 		for _, tc := range tcalls {
 			for _, ft := range refacts.At(tc.Block()) {
-				calls, fields := condMentions(ft.Cond)
+				calls, fields := condMentions(ft.Cond, refacts)
 				extra = append(extra, calls...)
 				for _, fl := range fields {
 					if fl != rapidCtxT+".telemetryAPIEnabled" {
